@@ -220,7 +220,8 @@ fn kind_ops<F: FftField + PrimeField, D: Dom<F>>(id: &str, caps: &Caps, thorough
         return;
     }
     // ---- the domains of this kind
-    let sizes: Vec<usize> = family::<F>(caps.edge_max).into_iter().filter(|&m| D::new(m).map(|d| d.size() == m).unwrap_or(false)).collect();
+    let kcap = if F::MODULUS_BIT_SIZE > 128 && !thorough && D::K != "r" { caps.edge_max.min(512) } else { caps.edge_max };
+    let sizes: Vec<usize> = family::<F>(kcap).into_iter().filter(|&m| D::new(m).map(|d| d.size() == m).unwrap_or(false)).collect();
     for &m in sizes.iter().filter(|&&m| m <= 64 || m == 1024) {
         let d = D::new(m).unwrap();
         for off in [F::zero(), F::one(), F::GENERATOR, -F::one(), rnz(rng), d.group_gen()] {
@@ -445,7 +446,7 @@ fn main() {
     field_ops::<bls12_381::Fr>("bls381fr", c(32, 64, 1 << 11, 1 << 13, 32), th, rng, out, only);
     field_ops::<bn384::Fq>("bn384fq", c(16, 36, 1 << 9, 1 << 12, 18), th, rng, out, only);
     field_ops::<bn384::Fr>("bn384fr", Caps { light: true, ..c(0, 0, 1 << 8, 1 << 10, 0) }, th, rng, out, only);
-    field_ops::<mnt4_753::Fr>("mnt4753fr", c(10, 32, 1 << 10, 1 << 11, 10), th, rng, out, only);
+    field_ops::<mnt4_753::Fr>("mnt4753fr", c(10, 32, 1 << 9, 1 << 11, 10), th, rng, out, only);
     field_ops::<mnt4_753::Fq>("mnt4753fq", Caps { light: true, ..c(0, 0, 1 << 8, 1 << 9, 0) }, th, rng, out, only);
     field_ops::<secp256k1::Fr>("secp256k1fr", Caps { light: true, ..c(0, 0, 64, 64, 0) }, th, rng, out, only);
     out.flush();
